@@ -6,8 +6,11 @@ package rangecache
 import (
 	"bytes"
 	"context"
+	"encoding/json"
 	"errors"
 	"fmt"
+	"os"
+	"path/filepath"
 	"sync"
 	"testing"
 	"time"
@@ -255,21 +258,107 @@ func TestVfC17Exhaustive(t *testing.T) {
 	run.Note("exhaustive_scope", fmt.Sprintf("6-byte file, all histories of length <= %d over %d operations", maxLen, len(alphabet)))
 }
 
+type vfC17rd struct{ S, L int64 }
+
+type vfC17Conc struct {
+	Size    int
+	Workers [][]vfC17rd
+	Poison  []vfC17rd
+	GC      bool
+}
+
+// vfC17concEval runs the read lists of c concurrently on one cache.
+func vfC17concEval(c *vfC17Conc) error {
+	type rd = vfC17rd
+	file := vfFileBytes(c.Size)
+	poisoned := map[rd]bool{}
+	for _, p := range c.Poison {
+		poisoned[p] = true
+	}
+	rc := NewRangeCache(int64(c.Size), "vf", func(p []byte, off int64) (int, error) {
+		if poisoned[rd{off, int64(len(p))}] {
+			for i := range p {
+				p[i] = 0xBD
+			}
+			return 0, errVfInjected
+		}
+		return copy(p, file[off:]), nil
+	})
+	ctx, cancel := context.WithCancel(context.Background())
+	defer cancel()
+	if c.GC {
+		go func() {
+			for ctx.Err() == nil {
+				rc.DeleteOldEntries(ctx, -time.Hour)
+				time.Sleep(50 * time.Microsecond)
+			}
+		}()
+	}
+	var wg sync.WaitGroup
+	errs := make(chan error, len(c.Workers))
+	for w := range c.Workers {
+		wg.Add(1)
+		go func(list []rd) {
+			defer wg.Done()
+			defer func() {
+				if r := recover(); r != nil {
+					errs <- fmt.Errorf("panic: %v", r)
+				}
+			}()
+			for _, x := range list {
+				valid := x.S+x.L <= int64(c.Size)
+				got, err := rc.GetRange(context.Background(), x.S, x.L)
+				switch {
+				case !valid:
+					if err == nil {
+						errs <- fmt.Errorf("GetRange(%d,%d) past the end of a %d-byte file returned %d bytes", x.S, x.L, c.Size, len(got))
+						return
+					}
+				case err != nil:
+					if !poisoned[x] {
+						errs <- fmt.Errorf("GetRange(%d,%d) failed (%v) although its own fetch cannot fail", x.S, x.L, err)
+						return
+					}
+				default:
+					if !bytes.Equal(got, file[x.S:x.S+x.L]) {
+						errs <- fmt.Errorf("GetRange(%d,%d) returned %x, the remote holds %x", x.S, x.L, got, file[x.S:x.S+x.L])
+						return
+					}
+					for k := range got {
+						got[k] = 0x5A
+					}
+				}
+			}
+		}(c.Workers[w])
+	}
+	done := make(chan struct{})
+	go func() { wg.Wait(); close(done) }()
+	select {
+	case <-done:
+	case <-time.After(60 * time.Second):
+		return fmt.Errorf("concurrent readers did not finish within 60s")
+	}
+	select {
+	case err := <-errs:
+		return fmt.Errorf("(concurrent) %v", err)
+	default:
+	}
+	return nil
+}
+
 // TestVfC17Concurrent: goroutines replay generated read lists on one cache.
 // Fetches of "poisoned" ranges fail; a read may fail only if its own range is
 // poisoned (a fetch is issued for exactly the requested range) or invalid.
+// A fatal runtime error (concurrent map access) kills the process: the driver
+// attributes it to the case recorded in last-input.json.
 func TestVfC17Concurrent(t *testing.T) {
 	run := vfh.Begin("C17", "concurrent")
 	defer run.End(t)
-	type rd struct{ S, L int64 }
-	type ccase struct {
-		Size    int
-		Workers [][]rd
-		Poison  []rd
-		GC      bool
-	}
+	type rd = vfC17rd
+	lastInput := filepath.Join(os.Getenv("VERIF_TMP"), "last-input.json")
+	os.MkdirAll(filepath.Dir(lastInput), 0o755)
 	rapid.Check(t, func(rt *rapid.T) {
-		c := &ccase{Size: rapid.IntRange(8, 256).Draw(rt, "size")}
+		c := &vfC17Conc{Size: rapid.IntRange(8, 256).Draw(rt, "size")}
 		c.GC = rapid.Bool().Draw(rt, "gc")
 		nw := rapid.IntRange(4, 16).Draw(rt, "workers")
 		genRd := func() rd {
@@ -281,94 +370,55 @@ func TestVfC17Concurrent(t *testing.T) {
 		for i := 0; i < np; i++ {
 			c.Poison = append(c.Poison, genRd())
 		}
+		hot := rapid.IntRange(0, 2).Draw(rt, "hot") == 0 // every worker reads the same few ranges: concurrent cache hits
+		var hotSet []rd
+		for i := 0; i < 3; i++ {
+			hotSet = append(hotSet, genRd())
+		}
 		for w := 0; w < nw; w++ {
 			var l []rd
 			n := rapid.IntRange(1, 40).Draw(rt, "n")
+			if hot {
+				n = rapid.IntRange(100, 400).Draw(rt, "nHot")
+			}
 			for i := 0; i < n; i++ {
-				if len(c.Poison) > 0 && rapid.IntRange(0, 5).Draw(rt, "usePoison") == 0 {
+				switch {
+				case hot:
+					l = append(l, hotSet[rapid.IntRange(0, len(hotSet)-1).Draw(rt, "hi")])
+				case len(c.Poison) > 0 && rapid.IntRange(0, 5).Draw(rt, "usePoison") == 0:
 					l = append(l, c.Poison[rapid.IntRange(0, len(c.Poison)-1).Draw(rt, "pi")])
-				} else {
+				default:
 					l = append(l, genRd())
 				}
 			}
 			c.Workers = append(c.Workers, l)
 		}
 		run.SetLast(c)
-		run.Case(c, len(c.Workers) >= 4, map[string]any{"size": c.Size, "workers": len(c.Workers), "poison": c.Poison})
-		file := vfFileBytes(c.Size)
-		poisoned := map[rd]bool{}
-		for _, p := range c.Poison {
-			poisoned[p] = true
+		cls := []string{}
+		if hot {
+			cls = append(cls, "hot-ranges")
 		}
-		rc := NewRangeCache(int64(c.Size), "vf", func(p []byte, off int64) (int, error) {
-			if poisoned[rd{off, int64(len(p))}] {
-				for i := range p {
-					p[i] = 0xBD
-				}
-				return 0, errVfInjected
-			}
-			return copy(p, file[off:]), nil
-		})
-		ctx, cancel := context.WithCancel(context.Background())
-		defer cancel()
-		if c.GC {
-			go func() {
-				for ctx.Err() == nil {
-					rc.DeleteOldEntries(ctx, -time.Hour)
-					time.Sleep(50 * time.Microsecond)
-				}
-			}()
+		run.Case(c, len(c.Workers) >= 4, map[string]any{"size": c.Size, "workers": len(c.Workers), "poison": c.Poison, "hot": hot}, cls...)
+		if b, err := json.Marshal(c); err == nil {
+			os.WriteFile(lastInput, b, 0o644)
 		}
-		var wg sync.WaitGroup
-		errs := make(chan error, len(c.Workers))
-		for w := range c.Workers {
-			wg.Add(1)
-			go func(list []rd) {
-				defer wg.Done()
-				defer func() {
-					if r := recover(); r != nil {
-						errs <- fmt.Errorf("panic: %v", r)
-					}
-				}()
-				for _, x := range list {
-					valid := x.S+x.L <= int64(c.Size)
-					got, err := rc.GetRange(context.Background(), x.S, x.L)
-					switch {
-					case !valid:
-						if err == nil {
-							errs <- fmt.Errorf("GetRange(%d,%d) past the end of a %d-byte file returned %d bytes", x.S, x.L, c.Size, len(got))
-							return
-						}
-					case err != nil:
-						if !poisoned[x] {
-							errs <- fmt.Errorf("GetRange(%d,%d) failed (%v) although its own fetch cannot fail", x.S, x.L, err)
-							return
-						}
-					default:
-						if !bytes.Equal(got, file[x.S:x.S+x.L]) {
-							errs <- fmt.Errorf("GetRange(%d,%d) returned %x, the remote holds %x", x.S, x.L, got, file[x.S:x.S+x.L])
-							return
-						}
-						for k := range got {
-							got[k] = 0x5A
-						}
-					}
-				}
-			}(c.Workers[w])
-		}
-		done := make(chan struct{})
-		go func() { wg.Wait(); close(done) }()
-		select {
-		case <-done:
-		case <-time.After(60 * time.Second):
-			rt.Fatalf("C17 violated: concurrent readers did not finish within 60s")
-		}
-		select {
-		case err := <-errs:
-			rt.Fatalf("C17 violated (concurrent): %v", err)
-		default:
+		if err := vfC17concEval(c); err != nil {
+			rt.Fatalf("C17 violated: %v", err)
 		}
 	})
+}
+
+// TestVfReplayC17Concurrent re-runs a concurrent case (schedule dependent: up to 300 times).
+func TestVfReplayC17Concurrent(t *testing.T) {
+	var c vfC17Conc
+	if !vfh.LoadReplay(t, &c) {
+		t.Skip("no VERIF_REPLAY")
+	}
+	for i := 0; i < 300; i++ {
+		if err := vfC17concEval(&c); err != nil {
+			t.Fatalf("C17 violated: %v", err)
+		}
+	}
 }
 
 func TestVfReplayC17(t *testing.T) {
